@@ -1584,10 +1584,22 @@ def replay(path):
         lean = build_lean()
         har = build_harness()
     if body["kind"] == "failing-input":
-        key = PROPS[prop]["key"]
+        key = PROPS.get(prop, {}).get("key")
         stream = body.get("stream", "oracle")
         print("stream:", stream)
         print("case:", body["case"][:600])
+        direct = (stream in ("S2", "S3", "S4", "S5", "S6", "S8")) or (stream == "oracle" and prop in PROPS and key)
+        if not direct:
+            # determinism across processes (C07), reachability over a seed range (C12), the front ends (C13): the
+            # recorded failure is a relation between several runs — re-run the property's check, which re-establishes it
+            print("re-running the check of %s (the failure relates several runs; see `observed` in the replay file)" % prop)
+            print("observed then:", str(body.get("observed", ""))[:400])
+            fn = EXTRA.get(prop)
+            rc = fn(prop, "quick", int(os.environ.get("VERIF_SEED", "1") or 1)) if fn else check_property(prop, "quick", int(os.environ.get("VERIF_SEED", "1") or 1))
+            if rc != 0:
+                return 1
+            print("the check passes now")
+            return 0
         if stream == "oracle" and body.get("history_dependent"):
             # the failure needs the process history: re-run the whole job and look at the same case id
             job = body["fails_only_inside_process"]
